@@ -210,7 +210,9 @@ class Compiler:
 
 
     def set_link_address(self, address, state):
-        if state["link_base"]["promise"].settled:
+        def already_set():
+            if not state["link_base"]["promise"].settled:
+                return False
             prev_link = state["link_base"]["set_where"]
             if prev_link is None:
                 reports.error(
@@ -223,6 +225,9 @@ class Compiler:
                     (state["insn"].ctx_start, state["insn"].ctx_end, "The link base has already been set."),
                     (prev_link.ctx_start, prev_link.ctx_end, "The link base has been previously set here.")
                 )
+            return True
+
+        if already_set():
             return
 
         def fn():
@@ -244,8 +249,13 @@ class Compiler:
                 )
                 return 0
 
+        value = Deferred[int](fn)
+        # Trying the expression may have carried out a block that was waiting
+        # for its count and sets the base itself
+        if already_set():
+            return
         state["link_base"]["set_where"] = state["insn"]
-        state["link_base"]["promise"].settle(Deferred[int](fn))
+        state["link_base"]["promise"].settle(value)
 
 
     def declare_external_symbol(self, location, name, state):
